@@ -394,3 +394,23 @@ PROPS['C15'] = dict(
     explanation='SEQUENTIAL ACCOUNTING CORE ONLY. Verus: every hit of every read variant hands exactly one access record (the hash of that key) to the pool and a miss none; Buffer::add keeps every record either buffered or in exactly '
                 'one batch handed to the consumer, in order, and never exceeds its capacity; the consumer side records every hash of a batch exactly once (TinyLFU::increment_access advances the window by the batch length).',
 )
+
+# one iteration of the worker loop is under contract (rule X1/loopbodyfn: the body of `while let Ok(pair) = receiver.recv()` in
+# CommandExecutor::spin, extracted as a function): C12 "resolves exactly once, to the command's outcome, after the effect";
+# C13 "Shutdown answers every command still queued"
+STEP_ASSUME = ['crossbeam channel (ASSUMED contract): FIFO; `receiver.iter()` yields each queued command once, in order; the ghost `queue` holds the acknowledgement ids of '
+               'the commands waiting in the channel and `acks` the acknowledgements completed so far; all acknowledgements are distinct objects (CommandAcknowledgement::new per send)',
+               'CommandAcknowledgement::done (ASSUMED here, kani:ack/*): stores the status, then sets the flag and wakes the waker']
+PROPS['C12']['verus_only'] = {'worker': [r'CommandExecutor::put$', r'CommandExecutor::put_with_ttl$', r'CommandExecutor::delete$', r'verif_worker_step'], 'lemmas': [r'lemma_poll_after_flag']}
+PROPS['C12']['floor'] = {'quick': 11, 'thorough': 11}
+PROPS['C12']['assumptions'] = PROPS['C12']['assumptions'] + STEP_ASSUME
+PROPS['C12']['not_covered'] = ['a waker registered concurrently with done() on another thread: decided only at the interference points of kani:ack (X2), not for every schedule']
+PROPS['C12']['explanation'] += (' Verus (worker step): for every command the worker first executes it and then completes its acknowledgement exactly once (done() requires "not completed yet") '
+                                'with the status the command ended with, never Pending; for Put / PutWithTTL / Delete the Store already shows the effect when Accepted is stored; nobody else\'s acknowledgement is touched.')
+PROPS['C13']['verus'] = ['api', 'worker']
+PROPS['C13']['verus_only'] = {'api': [r'CacheD::', r'MultiGetIterator::next', r'MultiGetMapIterator::next'], 'worker': [r'verif_worker_step']}
+PROPS['C13']['floor'] = {'quick': 19, 'thorough': 19}
+PROPS['C13']['assumptions'] = PROPS['C13']['assumptions'] + STEP_ASSUME
+PROPS['C13']['not_covered'] = ['"shutdown() never blocks" and "the worker thread eventually reaches the Shutdown command" are schedule / liveness properties and are NOT decided here']
+PROPS['C13']['explanation'] = PROPS['C13']['explanation'].replace('FIRST SENTENCE ONLY. ', '') + (' Verus (worker step, Shutdown case): the Shutdown command is answered Accepted, every command still queued behind it is answered '
+                                'ShuttingDown (loop invariant over the drained prefix), the queue ends empty, and the Store / weights are untouched.')
